@@ -121,4 +121,20 @@ META = {
         "technique": "Coq proof (stdlib Q for the specification, mathcomp big operators for the DFT identity) + specification-vs-implementation correspondence",
         "design_ref": "DESIGN.md §3 C20",
     },
+    "C14": {
+        "text": "Coq theorems: in the field-mode model a state whose fields are fully serialised or empty count-only pools is restored exactly by restore o snapshot; the field lists re-extracted from the Rust source on this run contain no skipped field, the only "
+                "count-only field is the allocator's buffer list, and the RNG-less mirror with both conversions (and Clone) carries every field; a continuation is a function of (state, RNG words). "
+                "Every step index of random runs (before any step, mid-growth of the cutoff, all option combinations) and tempering containers right after swaps are snapshot points: direct and RNG-less round trips, verify(), JSON equality of everything serde exposes, "
+                "and lock-step continuation against the uninterrupted run; a restored copy's next step is also replayed by the model.",
+        "note": "Trusted: Coq kernel + vm_compute; extract.py; serde_json. Partial: value-level faithfulness of each field is established differentially at every snapshot point, not by a theorem about serde.",
+        "technique": "Coq proof (field-mode round trip + generated-field obligations by vm_compute) + snapshot/restore/continue differential at every step index",
+        "design_ref": "DESIGN.md §3 C14",
+    },
+    "C13": {
+        "text": "Coq theorems: every update is a function of (configuration, RNG words); replaying a composed program equals replaying its parts in sequence (so a clone continues like its original); drawing a swap phase's uniforms ahead of time (rayon driver) yields, on every tape, "
+                "exactly the lazily drawn (serial) decisions; independent per-replica updates give the same vector under every execution order. Equal-seed twins, clones taken at random steps, and serial vs rayon drivers under pools of 1..16 threads (repeated) are compared exhaustively through serde; twin steps are replayed by the model.",
+        "note": "Trusted: Coq kernel + vm_compute; rayon and Rust's &mut disjointness (no executable model of work stealing). The serial and parallel tempering steps are both replayed by the same model on the same words in C10/C17.",
+        "technique": "Coq proof (tape-replay monad laws, permutation invariance of commuting updates) + twin/clone/thread-pool differential runs",
+        "design_ref": "DESIGN.md §3 C13",
+    },
 }
